@@ -296,9 +296,20 @@ func runGroupCase(c groupCase) error {
 		// release in the chosen order; before releasing the next wait until the previous member's goroutine is gone
 		// (its response was consumed) or the call has returned (order no longer matters).
 		remaining := n
-		for _, i := range c.Order {
+		for k, i := range c.Order {
 			close(gates[i])
 			remaining--
+			if (s == group.ExecutionStrategyFast || s == group.ExecutionStrategyRace) && exp.decidedAfter == k+1 && remaining > 0 {
+				// Fast returns the first success and Race the first response: the call is over now, whatever the members
+				// that are still running (and are not released yet) do
+				deadline := time.Now().Add(5 * time.Second)
+				for !poll() {
+					if time.Now().After(deadline) {
+						return fmt.Errorf("the outcome was decided when member %d completed, but the call had not returned 5s later (%d members still running)", i, remaining)
+					}
+					time.Sleep(50 * time.Microsecond)
+				}
+			}
 			deadline := time.Now().Add(10 * time.Second)
 			for {
 				if poll() {
@@ -466,7 +477,16 @@ var enumMu sync.Mutex
 func TestGroupExhaustive(t *testing.T) {
 	maxN := 4
 	done := false
-	lib.Enumerate(t, "TestGroupExhaustive", func(yield func(groupCase) bool) {
+	shard, nshards := lib.Shard()
+	idx := 0
+	lib.Enumerate(t, "TestGroupExhaustive", func(yield0 func(groupCase) bool) {
+		yield := func(c groupCase) bool {
+			idx++
+			if idx%nshards != shard {
+				return true
+			}
+			return yield0(c)
+		}
 		for n := 0; n <= maxN; n++ {
 			for bits := 0; bits < 1<<n; bits++ {
 				ok := make([]bool, n)
